@@ -1036,7 +1036,8 @@ def _prox_factory(cfg, rng):
     else:
         fac = getattr(PO, name)(S, lam=lam, g=_g_or_none(cfg, rng, S))
         if name in ('proximal_l1', 'proximal_l2_squared',
-                    'proximal_convex_conj_l2_squared') and \
+                    'proximal_convex_conj_l2_squared',
+                    'proximal_convex_conj_l1') and \
                 opt(cfg, rng, 'sigma', ['scalar', 'scalar', 'elem']) == 'elem':
             sigma = SP.rand_elem(S, data(cfg, 'sigma'), positive=True)
     return _with_sibling(cfg, rng, fac, sigma)
